@@ -9,7 +9,6 @@
                           paths of plain components
      fs_ok c f            every path is clean absolute, every entry's parent is a directory entry,
                           no <layers>/<x>/layerconfig is a symbolic link
-     no_stale_tmp c f cmd for rename: no left-over layerconfig.tmp in the renamed layer and its children
    Proofs/C02ExP.v shows a two-layer world satisfying all of them, and worlds violating each. *)
 From LC Require Import Lib.Bytes Lib.Lex Lib.Fields Lib.PathM Model.Config Gen.Consts
   Model.MountInfo Model.FsTree Model.Kernel Model.Layers Cases.Verdict Cases.LC Cases.C02
@@ -146,33 +145,35 @@ Print Assumptions C02_read_is_canonical.
    subtree other than its layerconfig is identical under the new name and nothing else is there, the
    layer's own definition is unchanged, every other layer has the same definition with its base
    retargeted iff it was a child, everything else under the layers directory is untouched.
-   no_stale_tmp: no left-over layerconfig.tmp in the renamed layer or in a child. *)
-Theorem C02_rename_exact_partial : forall cfg w e cmd um,
+   Left-over layerconfig.tmp files are exempt in rename_exact (follow-up of round 2) and are consumed
+   by the rewrites; the former hypothesis no_stale_tmp is gone. *)
+Theorem C02_rename_exact : forall cfg w e cmd um,
   cfg_ok cfg = true -> fs_ok cfg (wo_fs w) = true -> paths_distinct w = true ->
-  no_stale_tmp cfg (wo_fs w) cmd = true -> e_pretend e = false ->
+  e_pretend e = false ->
   let v := view_of_model cfg w e cmd um in
   match v_cmd v, v_res v with
   | CRename a n, ROk => C02.rename_exact cfg (wo_fs w) (wo_fs (v_after v)) a n
   | _, _ => true
   end = true.
 Proof. exact rename_exact_view. Qed.
-Print Assumptions C02_rename_exact_partial.
+Print Assumptions C02_rename_exact.
 
-(* rename_exact still needs no_stale_tmp: a left-over layerconfig.tmp in a child is consumed when
-   the child's layerconfig is rewritten; the rename succeeds, the forest is fine, rename_exact is false *)
-Theorem C02_rename_exact_refuted : exists cfg w e a b0,
-  (cfg_ok cfg && fs_ok cfg (wo_fs w) && paths_distinct w && kernel_wf w && names_distinct cfg w
-   && C02.forest_ok cfg (wo_fs w)) = true /\
-  e_pretend e = false /\ e_fault e = NoFault /\
-  v_res (view_of_model cfg w e (CRename a b0) []) = ROk /\
-  C02.rename_exact cfg (wo_fs w) (wo_fs (v_after (view_of_model cfg w e (CRename a b0) []))) a b0 = false.
-Proof. exact rename_exact_refuted. Qed.
-Print Assumptions C02_rename_exact_refuted.
+(* the former counterexample, now an example of accepted behaviour: a left-over b/layerconfig.tmp in
+   a child is consumed by `rename a c`; the forest is fine, rename_exact and step_spec hold *)
+Theorem C02_rename_stale_tmp_example :
+  let w := MkWO fs_stale ks0 in
+  let v := view_of_model cfg0 w env_plain (CRename na nc) [] in
+  (fs_ok cfg0 fs_stale, v_res v, exists_ (wo_fs (v_after v)) (bs "/lc/layers/b/layerconfig.tmp"),
+   C02.forest_ok cfg0 (wo_fs (v_after v)),
+   C02.rename_exact cfg0 fs_stale (wo_fs (v_after v)) na nc, C02.step_spec cfg0 w v)
+  = (true, ROk, false, true, true, true).
+Proof. exact rename_consumes_stale_tmp. Qed.
+Print Assumptions C02_rename_stale_tmp_example.
 
 (* all four conjuncts of C02.step_spec together *)
 Theorem C02_step_spec_partial : forall cfg w e cmd um,
   cfg_ok cfg = true -> fs_ok cfg (wo_fs w) = true -> names_distinct cfg w = true ->
-  paths_distinct w = true -> no_stale_tmp cfg (wo_fs w) cmd = true ->
+  paths_distinct w = true ->
   C02.forest_ok cfg (wo_fs w) = true ->
   in_scope e cmd (v_res (view_of_model cfg w e cmd um)) = true ->
   C02.step_spec cfg w (view_of_model cfg w e cmd um) = true.
@@ -184,7 +185,6 @@ Print Assumptions C02_step_spec_partial.
 Theorem C02_hypotheses_satisfiable :
   (cfg_ok cfg0 && fs_ok cfg0 fs0 && kernel_wf wld0 && names_distinct cfg0 wld0 && paths_distinct wld0
    && C02.forest_ok cfg0 fs0 && base_set_up cfg0 fs0
-   && no_stale_tmp cfg0 fs0 (CRename na nc)
    && (2 <=? length (read_layer_files cfg0 fs0))%nat) = true.
 Proof. exact hyps_satisfiable. Qed.
 Print Assumptions C02_hypotheses_satisfiable.
